@@ -538,6 +538,11 @@ def _n17_function(func):
                         f0 = stmts[first]
                         binds = isinstance(f0, ast.Assign) and len(f0.targets) == 1 and isinstance(f0.targets[0], ast.Name) and f0.targets[0].id == t \
                             and not any(isinstance(y, ast.Name) and y.id == t for y in ast.walk(f0.value))
+                        if not binds:
+                            # t is only ever written in that stretch (e.g. set on several branches of a loop / if), never read
+                            occ = [y for nd in stmts[first:k] for y in ast.walk(nd) if isinstance(y, ast.Name) and y.id == t]
+                            binds = bool(occ) and all(isinstance(y.ctx, ast.Store) for y in occ) and not any(
+                                isinstance(y, ast.ExceptHandler) and y.name == t for nd in stmts[first:k] for y in ast.walk(nd))
                         if binds:
                             for j in range(first, k):
                                 stmts[j] = Ren(t, x).visit(stmts[j])
